@@ -2,9 +2,11 @@
 //
 // cholesky.Run is called on *DenseFloat32Matrix (-> cholesky_float32, cholesky_ldl_float32,
 // cholesky_ldl_forcepd_float32) and on *DenseReal32Matrix (-> the generic routines) with
-//   fresh    no InSitu argument,
-//   garbage  recycled InSitu L (and D) full of non-zero values, non-zero S and T,
-//   inplace  InSitu.L is the input matrix itself (D recycled),
+//
+//	fresh    no InSitu argument,
+//	garbage  recycled InSitu L (and D) full of non-zero values, non-zero S and T,
+//	inplace  InSitu.L is the input matrix itself (D recycled),
+//
 // and the (binary32 input, observed output or error) pairs are printed as C05.Corr32.d32case
 // terms.  All matrices are rounded to float32 first and the ROUNDED values are printed.
 package main
@@ -263,6 +265,17 @@ func (rn *runner32) run(in *In32) *Out {
 		w.Count("outcome:error(" + in.Kind + ")")
 	default:
 		w.Count("outcome:value")
+		if in.Mode == "inplace" && in.Kind == "fpd" {
+			// F-FPD-INPLACE: with InSitu.L aliasing the input, L(j,j) = 1 is written before A(j,j) is read.
+			// Observed (not assumed): compare with the call on fresh buffers.
+			fresh := *in
+			fresh.Mode = "fresh"
+			if of := Run32(&fresh); !of.Same(o) {
+				w.Count("fpd-inplace-differs-from-fresh")
+			} else {
+				w.Count("fpd-inplace-equals-fresh")
+			}
+		}
 		if in.Mode != "inplace" || in.Kind != "fpd" {
 			if sameAsRounded64(in, o) {
 				w.Count("value-equals-rounded-float64-result")
